@@ -191,3 +191,34 @@ func vh_C19_sync_guard() {
 }
 
 var vSentLog []byte
+
+// The whole constructor (L2: the receive goroutine it starts is interpreted):
+// NewClientPipe on arbitrary handshake bytes returns a Client exactly when
+// recvVersion accepts them; it has then written exactly one INIT packet
+// announcing version 3; on failure the writer is closed and nothing is left
+// running; on success the session ends cleanly when the stream does.
+func vh_C19_new_client_pipe() {
+	n := 14
+	if vThorough() {
+		n = 20
+	}
+	data := vNondetBytesC(n)
+	vConsumed(len(data))
+	w := &vBuf{}
+	c, err := NewClientPipe(&vReader{data: data}, w)
+	vAssert((c == nil) == (err != nil), "a client or an error, never both or neither")
+	wellFormed := len(data) >= 9 && data[4] == sshFxpVersion && data[5] == 0 && data[6] == 0 && data[7] == 0 && data[8] == 3
+	if err == nil {
+		vAssert(wellFormed, "a session is established only with a VERSION packet announcing version 3")
+		vAssert(vBytesEq(w.b, []byte{0, 0, 0, 5, sshFxpInit, 0, 0, 0, 3}), "the client has sent exactly one INIT announcing version 3")
+		// the stream ends after the handshake (or goes on with arbitrary bytes):
+		// the receiver shuts down, Wait and Close return
+		vQuiesce()
+		c.Wait()
+		c.Close()
+		vAssert(w.closed, "the writer is closed with the session")
+	} else {
+		vAssert(w.closed, "a failed construction closes the writer")
+	}
+	vEmit("ok", err == nil)
+}
